@@ -1,108 +1,31 @@
-// shared helper for the repro_<n>.cpp programs: dense LP description, loading through the public API,
-// and an explicit primal-dual certificate check in the user's problem space.
-#ifndef REPRO_COMMON_H
-#define REPRO_COMMON_H
+// shared by the reproducers: a tiny LP   max x+y  s.t. x+2y<=4, 3x+y<=6, x,y>=0   (optimum 2.8)
 #include "soplex.h"
-#include <vector>
-#include <cstdio>
+#include <iostream>
+#include <sstream>
 #include <cmath>
 using namespace soplex;
-static const double INF = 1e100;
-struct DenseLP
+static void buildLP(SoPlex& s)
 {
-   int m, n, sense; // sense +1 min, -1 max
-   double offset;
-   std::vector<std::vector<double>> A;
-   std::vector<double> lhs, rhs, lo, up, c;
-};
-static inline bool fin(double v) { return std::fabs(v) < 1e99; }
-// build 1: empty columns one by one, then rows one by one; build 2: LPColSet / LPRowSet in one call each
-static void loadLP(SoPlex& sp, const DenseLP& lp, int build = 1)
+   s.setIntParam(SoPlex::OBJSENSE, SoPlex::OBJSENSE_MAXIMIZE);
+   DSVector d(0);
+   s.addColReal(LPCol(1.0, d, infinity, 0.0));
+   s.addColReal(LPCol(1.0, d, infinity, 0.0));
+   DSVector r1(2); r1.add(0, 1.0); r1.add(1, 2.0);
+   s.addRowReal(LPRow(-infinity, r1, 4.0));
+   DSVector r2(2); r2.add(0, 3.0); r2.add(1, 1.0);
+   s.addRowReal(LPRow(-infinity, r2, 6.0));
+}
+// badly scaled 4x4 LP (min), used to make scaler / simplifier activity visible in the log
+static void buildBadlyScaledLP(SoPlex& s)
 {
-   sp.setIntParam(SoPlex::OBJSENSE, lp.sense > 0 ? SoPlex::OBJSENSE_MINIMIZE : SoPlex::OBJSENSE_MAXIMIZE);
-   sp.setRealParam(SoPlex::OBJ_OFFSET, lp.offset);
-   DSVector e(0);
-   if(build == 2)
+   s.setIntParam(SoPlex::OBJSENSE, SoPlex::OBJSENSE_MINIMIZE);
+   DSVector d(0);
+   for(int j = 0; j < 4; j++) s.addColReal(LPCol(1.0 + j, d, infinity, 0.0));
+   double A[4][4] = {{1, 1000, 0, 3}, {0.001, 2, 50, 0}, {7, 0, 0.03, 900}, {20, 0.5, 1, 1}};
+   for(int i = 0; i < 4; i++)
    {
-      LPColSet cs;
-      for(int j = 0; j < lp.n; j++) cs.add(lp.c[j], lp.lo[j], e, lp.up[j]);
-      sp.addColsReal(cs);
-      LPRowSet rs;
-      for(int i = 0; i < lp.m; i++)
-      {
-         DSVector v(lp.n);
-         for(int j = 0; j < lp.n; j++) if(lp.A[i][j] != 0) v.add(j, lp.A[i][j]);
-         rs.add(lp.lhs[i], v, lp.rhs[i]);
-      }
-      sp.addRowsReal(rs);
-      return;
-   }
-   for(int j = 0; j < lp.n; j++) sp.addColReal(LPCol(lp.c[j], e, lp.up[j], lp.lo[j]));
-   for(int i = 0; i < lp.m; i++)
-   {
-      DSVector v(lp.n);
-      for(int j = 0; j < lp.n; j++) if(lp.A[i][j] != 0) v.add(j, lp.A[i][j]);
-      sp.addRowReal(LPRow(lp.lhs[i], v, lp.rhs[i]));
+      DSVector r(4);
+      for(int j = 0; j < 4; j++) if(A[i][j] != 0) r.add(j, A[i][j]);
+      s.addRowReal(LPRow(1.0 + i, r, infinity));
    }
 }
-// returns number of violations of the certificate / basis; prints them
-static int checkOptimal(SoPlex& sp, const DenseLP& lp, double trueopt, bool checkBasis = true)
-{
-   int bad = 0;
-   const double tol = 1e-6;
-   int m = lp.m, n = lp.n;
-   VectorReal x(n), s(m), y(m), d(n);
-   if(!sp.getPrimal(x) || !sp.getSlacksReal(s) || !sp.getDual(y) || !sp.getRedCost(d)) { printf("getter failed\n"); return 1; }
-   double cx = lp.offset;
-   for(int j = 0; j < n; j++)
-   {
-      cx += lp.c[j] * x[j];
-      if(fin(lp.lo[j]) && x[j] < lp.lo[j] - tol) { printf("x%d=%g < lower %g\n", j, x[j], lp.lo[j]); bad++; }
-      if(fin(lp.up[j]) && x[j] > lp.up[j] + tol) { printf("x%d=%g > upper %g\n", j, x[j], lp.up[j]); bad++; }
-   }
-   if(std::fabs(cx - sp.objValueReal()) > tol * (1 + std::fabs(cx))) { printf("objValue %g != c.x+offset %g\n", sp.objValueReal(), cx); bad++; }
-   if(std::fabs(trueopt - sp.objValueReal()) > 1e-5 * (1 + std::fabs(cx))) { printf("objValue %g != true optimum %g\n", sp.objValueReal(), trueopt); bad++; }
-   for(int i = 0; i < m; i++)
-   {
-      double act = 0;
-      for(int j = 0; j < n; j++) act += lp.A[i][j] * x[j];
-      if(std::fabs(act - s[i]) > tol * (1 + std::fabs(act))) { printf("slack%d=%g != row activity %g\n", i, s[i], act); bad++; }
-      if(fin(lp.lhs[i]) && act < lp.lhs[i] - tol) { printf("row%d activity %g < lhs %g\n", i, act, lp.lhs[i]); bad++; }
-      if(fin(lp.rhs[i]) && act > lp.rhs[i] + tol) { printf("row%d activity %g > rhs %g\n", i, act, lp.rhs[i]); bad++; }
-      double ym = y[i] * lp.sense;
-      if(ym > tol && !(fin(lp.lhs[i]) && act - lp.lhs[i] <= 10 * tol)) { printf("dual%d=%g has wrong sign / row not at lhs\n", i, y[i]); bad++; }
-      if(ym < -tol && !(fin(lp.rhs[i]) && lp.rhs[i] - act <= 10 * tol)) { printf("dual%d=%g has wrong sign / row not at rhs\n", i, y[i]); bad++; }
-   }
-   for(int j = 0; j < n; j++)
-   {
-      double rc = lp.c[j];
-      for(int i = 0; i < m; i++) rc -= y[i] * lp.A[i][j];
-      if(std::fabs(rc - d[j]) > tol * (1 + std::fabs(rc))) { printf("redcost%d=%g != c - A'y = %g\n", j, d[j], rc); bad++; }
-      double dm = d[j] * lp.sense;
-      if(dm > tol && !(fin(lp.lo[j]) && x[j] - lp.lo[j] <= 10 * tol)) { printf("redcost%d=%g wrong sign / col not at lower\n", j, d[j]); bad++; }
-      if(dm < -tol && !(fin(lp.up[j]) && lp.up[j] - x[j] <= 10 * tol)) { printf("redcost%d=%g wrong sign / col not at upper\n", j, d[j]); bad++; }
-   }
-   if(checkBasis)
-   {
-      if(!sp.hasBasis()) { printf("OPTIMAL without basis\n"); return bad + 1; }
-      int nb = 0;
-      for(int j = 0; j < n; j++)
-      {
-         auto b = sp.basisColStatus(j);
-         if(b == SPxSolver::BASIC) nb++;
-         else if(b == SPxSolver::ON_LOWER && !(fin(lp.lo[j]) && std::fabs(x[j] - lp.lo[j]) <= 1e-5)) { printf("col%d is ON_LOWER in the basis but x=%g, lower=%g\n", j, x[j], lp.lo[j]); bad++; }
-         else if(b == SPxSolver::ON_UPPER && !(fin(lp.up[j]) && std::fabs(x[j] - lp.up[j]) <= 1e-5)) { printf("col%d is ON_UPPER in the basis but x=%g, upper=%g\n", j, x[j], lp.up[j]); bad++; }
-         else if(b == SPxSolver::ZERO && !(std::fabs(x[j]) <= 1e-5)) { printf("col%d is nonbasic ZERO in the basis but x=%g\n", j, x[j]); bad++; }
-      }
-      for(int i = 0; i < m; i++)
-      {
-         auto b = sp.basisRowStatus(i);
-         if(b == SPxSolver::BASIC) nb++;
-         else if(b == SPxSolver::ON_LOWER && !(fin(lp.lhs[i]) && std::fabs(s[i] - lp.lhs[i]) <= 1e-5)) { printf("row%d is ON_LOWER in the basis but slack=%g, lhs=%g\n", i, s[i], lp.lhs[i]); bad++; }
-         else if(b == SPxSolver::ON_UPPER && !(fin(lp.rhs[i]) && std::fabs(s[i] - lp.rhs[i]) <= 1e-5)) { printf("row%d is ON_UPPER in the basis but slack=%g, rhs=%g\n", i, s[i], lp.rhs[i]); bad++; }
-      }
-      if(nb != m) { printf("basis has %d BASIC variables but the LP has %d rows\n", nb, m); bad++; }
-   }
-   return bad;
-}
-#endif
